@@ -1057,6 +1057,10 @@ class Interp:
                     return DocV(D.Sub(t.prov + '/uncommented', t.ctx, commented=False))
             if isinstance(t, (D.Nest, D.Grp, D.AB)) and attr == 'doc':
                 return DocV(t.child)
+            if isinstance(t, (D.Cat, D.Fill)) and attr == 'docs':
+                return TupleV([DocV(x) if isinstance(x, D.T) else x for x in t.items])
+            if isinstance(t, D.FC) and attr in ('when_broken', 'when_flat'):
+                return DocV(t.broken if attr == 'when_broken' else t.flat)
             raise Undecided('attribute .%s of document %s' % (attr, D.show(t)))
         if isinstance(obj, ObjV):
             if attr in obj.attrs:
@@ -1667,6 +1671,9 @@ class Interp:
             return list(v.elems)
         if isinstance(v, Const) and isinstance(v.v, (tuple, list, str, bytes, range)):
             return [Const(x) for x in v.v]
+        if isinstance(v, DocV) or (isinstance(v, ObjV) and self.find_method(v.cls, '__iter__') is None and v.cls.module is not None):
+            # document objects (and plain objects of package classes without __iter__) are not iterable
+            raise Raised("TypeError: '%s' object is not iterable" % (v.cls.name if isinstance(v, ObjV) else 'Doc'), getattr(node, 'lineno', 0))
         raise Undecided('iteration over %r (line %s)' % (v, getattr(node, 'lineno', '?')))
 
     # ---------------------------------------------------------------- methods
@@ -2154,7 +2161,7 @@ class Interp:
             r = self.prims[name](self, args, kwargs, node)
             if r is not NotImplemented:
                 return r
-        h = getattr(self, 'p_' + name, None)
+        h = getattr(self, 'p_' + name.replace('.', '_'), None) if '.' in name and name.startswith('sys.') else getattr(self, 'p_' + name, None)
         if h is None and name in ('OrderedDict', 'dict', 'list', 'tuple', 'set', 'frozenset', 'str', 'int', 'float', 'bool') and getattr(self, 'concrete_context', False):
             return self.construct(TypeV(name), list(args), dict(kwargs), node)
         if h is None and getattr(self, 'concrete_context', False):
@@ -2318,6 +2325,12 @@ class Interp:
             return Sym('sum(%s)' % _prov(a[0]), 'int')
         except TypeError as e:
             raise Raised('TypeError: %s' % e, getattr(n, 'lineno', 0))
+
+    def p_sys_getrecursionlimit(self, a, k, n):
+        return Sym('sys.getrecursionlimit()', 'int')      # an environment quantity: unknown integer
+
+    def p_getrecursionlimit(self, a, k, n):
+        return Sym('sys.getrecursionlimit()', 'int')
 
     def p_range(self, a, k, n):
         if not all(isinstance(x, Const) and isinstance(x.v, int) for x in a) or not 1 <= len(a) <= 3:
